@@ -2,7 +2,7 @@
    ClientProofs*.v; restated in Properties/Cxx.v).  No proofs in this file. *)
 From Coq Require Import List Bool Arith NArith.
 Import ListNotations.
-From TarpcV Require Import Base Transport Client ClientS ClientMon.
+From TarpcV Require Import Base Transport Client ClientS ClientMon ClientMon2.
 
 Section Spec.
   Context {T : Type}.
@@ -26,6 +26,9 @@ Section Spec.
     c03_ok maxif ops (client_trace tp fuel_of t0 qcap maxif ops) = true.
   Definition stmt_c05 := forall tp fuel_of t0 qcap maxif ops, no_wrap ops ->
     c05_ok maxif ops (client_trace tp fuel_of t0 qcap maxif ops) = true.
+  (* C05 promptness (ClientMon2.v) *)
+  Definition stmt_c05p := forall tp fuel_of t0 qcap maxif ops, no_wrap ops ->
+    c05p_ok maxif ops (client_trace tp fuel_of t0 qcap maxif ops) = true.
   Definition stmt_c09 := forall tp fuel_of t0 qcap maxif ops, no_wrap ops ->
     c09_ok maxif ops (client_trace tp fuel_of t0 qcap maxif ops) = true.
   Definition stmt_c10 := forall tp fuel_of t0 qcap maxif ops, no_wrap ops ->
